@@ -32,12 +32,18 @@ var (
 	maxRaw = 156 // longest name (bytes) whose "key_"+base32 form fits a 255-byte file name
 )
 
+// lockedKey is a private key whose raw bytes cannot be exported (locked /
+// hardware-backed key): ci.MarshalPrivateKey fails on it.
+type lockedKey struct{ ci.PrivKey }
+
+func (lockedKey) Raw() ([]byte, error) { return nil, errors.New("key is locked") }
+
 type detReader struct{ r *vlib.Rand }
 
 func (d detReader) Read(p []byte) (int, error) { copy(p, d.r.Bytes(len(p))); return len(p), nil }
 
 func run(c *vlib.Ctx) {
-	c.Rule("histories of 8-60 ops {Put,Get,Has,Delete,List,Reopen} over a per-case pool of 5-9 names drawn from: path-like ('a/b','../decoy','..','.','/', absolute path of a decoy), NUL / 0xff / unicode, case variants (key/KEY/Key), names equal to another name's base32 or file name, 1-byte names, pairs of 150-156-byte names that differ only in the last byte, random bytes; plus lenient out-of-domain names (empty, >156 bytes). Sandbox P/{ks, ks-evil/x, decoy, key_decoy, key_mrswg33z, ks.bak}; keystore dir pre-existing or created by NewFSKeystore. distinct = FNV of config + op list; non-trivial = history contains a refused overwrite, a Get/Has of a deleted key, a stored name with '/', '..' or NUL, and a List of >= 2 keys")
+	c.Rule("histories of 8-60 ops {Put,PutLocked (fault: a key whose Raw() fails, on fresh and existing names),Get,Has,Delete,List,Reopen} over a per-case pool of 5-9 names drawn from: path-like ('a/b','../decoy','..','.','/', absolute path of a decoy), NUL / 0xff / unicode, case variants (key/KEY/Key), names equal to another name's base32 or file name, 1-byte names, pairs of 150-156-byte names that differ only in the last byte, random bytes; plus lenient out-of-domain names (empty, >156 bytes). Sandbox P/{ks, ks-evil/x, decoy, key_decoy, key_mrswg33z, ks.bak}; keystore dir pre-existing or created by NewFSKeystore. distinct = FNV of config + op list; non-trivial = history contains a failed Put of an unmarshalable key on a fresh name, a refused overwrite, a Get/Has of a deleted key, a stored name with '/', '..' or NUL, and a List of >= 2 keys")
 	base = c.TempDir("c40-")
 	defer os.RemoveAll(base)
 	// probe the file-name limit of the sandbox file system once
@@ -203,7 +209,7 @@ func oneHistory(k *vlib.Case) {
 		k.Logf("name[%d]=%s (%s, %d bytes)", i, w.show(n), feat(n), len(n))
 	}
 
-	var sawRefused, sawDeletedQuery, sawHostileStored, sawList2 bool
+	var sawRefused, sawDeletedQuery, sawHostileStored, sawList2, sawFailedFresh bool
 	deleted := map[string]bool{}
 	nops := r.Range(8, 60)
 	for i := 0; i < nops && !k.Failed(); i++ {
@@ -214,7 +220,7 @@ func oneHistory(k *vlib.Case) {
 		inDomain := name != "" && len(name) <= maxRaw
 		op := r.Intn(100)
 		switch {
-		case op < 30:
+		case op < 28:
 			ki := r.Intn(len(w.keys))
 			k.Logf("Put name[%d] key%d", ni, ki)
 			_, exists := w.model[name]
@@ -259,6 +265,29 @@ func oneHistory(k *vlib.Case) {
 					sawHostileStored = true
 				}
 			}
+		case op < 36:
+			// fault: a key that cannot be marshalled (Raw() fails). A failed Put
+			// must not change the store.
+			ki := r.Intn(len(w.keys))
+			k.Logf("PutLocked name[%d] key%d (Raw() fails)", ni, ki)
+			_, exists := w.model[name]
+			lk := lockedKey{w.keys[ki]}
+			e1 := w.fsks.Put(name, lk)
+			k.C.Count("faulty_puts", 1)
+			if e1 == nil {
+				k.Fail("fs/put-unmarshalable-accepted/"+feat(name), "Put of a key that cannot be marshalled fails", "error", "nil")
+			}
+			// The memory store never marshals, so it has no reason to refuse a
+			// fresh name; it is only exercised where the outcome is specified.
+			if exists || name == "" {
+				if e2 := w.mem.Put(name, lk); e2 == nil {
+					k.Fail("mem/put-overwrite-accepted/"+feat(name), "Put refuses to overwrite", "error", "nil")
+				}
+			}
+			if !exists {
+				sawFailedFresh = true
+			}
+			// model unchanged; checkDisk below and the following queries verify it
 		case op < 50:
 			k.Logf("Get name[%d]", ni)
 			if !inDomain {
@@ -358,7 +387,7 @@ func oneHistory(k *vlib.Case) {
 		}
 		w.checkDisk()
 	}
-	if sawRefused && sawDeletedQuery && sawHostileStored && sawList2 {
+	if sawRefused && sawDeletedQuery && sawHostileStored && sawList2 && sawFailedFresh {
 		k.Nontrivial()
 	}
 	k.C.Count("ops", int64(nops))
